@@ -510,6 +510,7 @@ func (e *Engine) lookup(st *State, fr *Frame, in *ssa.Lookup) bool {
 				}
 			}
 		} else if isSym && obj.Has.S != "" {
+			st.addTrace(TraceEv{Kind: "mapread", Pos: e.pos(in.Pos()), Terms: map[string]Term{"m": IntLit(int64(m.Cell)), "k": ks.T}})
 			raw := Select(obj.Arr, ks.T, obj.ValSort)
 			if lo, hi, ok := intRange(mt.Elem()); ok {
 				st.fact(And(Ge(raw, mkT(lo, SInt)), Le(raw, mkT(hi, SInt))))
@@ -518,6 +519,7 @@ func (e *Engine) lookup(st *State, fr *Frame, in *ssa.Lookup) bool {
 			zs := e.zeroOf(mt.Elem()).(VSym)
 			val = sym(Ite(found, raw, zs.T))
 		} else if isSym {
+			st.addTrace(TraceEv{Kind: "mapread", Pos: e.pos(in.Pos()), Terms: map[string]Term{"m": IntLit(int64(m.Cell)), "k": ks.T}})
 			raw := Select(obj.Arr, ks.T, obj.ValSort)
 			found = Not(Eq(raw, obj.Absent))
 			if obj.NilT.S != "" {
@@ -612,7 +614,7 @@ func (e *Engine) mapUpdate(st *State, fr *Frame, in *ssa.MapUpdate) bool {
 			if n.Has.S != "" {
 				n.Has = Store(n.Has, kt.T, TTrue)
 			}
-			st.addTrace(TraceEv{Kind: "mapupdate", Text: kt.T.S, Pos: e.pos(in.Pos()), Terms: map[string]Term{"k": kt.T, "v": vt}})
+			st.addTrace(TraceEv{Kind: "mapupdate", Text: kt.T.S, Pos: e.pos(in.Pos()), Terms: map[string]Term{"k": kt.T, "v": vt, "m": IntLit(int64(cell))}})
 		}
 		st.heap[cell] = n
 	default:
@@ -678,7 +680,11 @@ func (e *Engine) mapDelete(st *State, m, key Value, pos string) {
 		}
 	}
 	st.heap[cell] = n
-	st.addTrace(TraceEv{Kind: "mapdelete", Pos: pos, Args: []Value{m, key}})
+	dt := map[string]Term{"m": IntLit(int64(cell))}
+	if kt, ok := key.(VSym); ok {
+		dt["k"] = kt.T
+	}
+	st.addTrace(TraceEv{Kind: "mapdelete", Pos: pos, Args: []Value{m, key}, Terms: dt})
 }
 
 // ---------------------------------------------------------------------------
